@@ -54,6 +54,15 @@ class LenFacts:
         if c[0] != "cmp":
             return
         op, a, b = c[1], c[2], c[3]
+        # B[lo:hi] == <bytes constant of hi - lo bytes>  (true)  =>  len(B) >= hi
+        if (op == "==" and v) or (op == "!=" and not v):
+            for x, y in ((a, b), (b, a)):
+                if x[0] == "slice" and x[3] is not None and is_const(y) and isinstance(y[1], (bytes, bytearray)):
+                    lo_l = layout.linear(strip_sites(self._norm(x[2]))) if x[2] is not None else ({}, 0)
+                    hi_l = layout.linear(strip_sites(self._norm(x[3])))
+                    if lo_l is not None and hi_l is not None and not lo_l[0] and not hi_l[0] and lo_l[1] >= 0 \
+                            and hi_l[1] - lo_l[1] == len(y[1]) and len(y[1]) > 0:
+                        self.ge.setdefault(strip_sites(x[1]), []).append(hi_l)
         flip = {"<": ">", ">": "<", "<=": ">=", ">=": "<=", "==": "==", "!=": "!="}
         if not (a[0] == "call" and a[1] == LEN and len(a[2]) == 1):
             if b[0] == "call" and b[1] == LEN and len(b[2]) == 1 and op in flip:
